@@ -543,6 +543,7 @@ def canon_log(log):
 
 def canon_action(a):
     a = dict(a)
+    a.pop('wcalls', None); a.pop('waited', None)      # harness-only observations (C10)
     a['log'] = canon_log(a.get('log', '-'))
     if a.get('inv', '-').startswith('0:'):
         a['inv'] = '0:' + sx.canon_text(a['inv'][2:])
@@ -797,3 +798,48 @@ def check_C19(ctx):
             broken.append({'case': line, 'hraw': 'tl=' + tl, 'mraw': m})
     report_broken(ctx, broken, 'threadlocal', 'ThreadLocal<T,Slot>::Get() observations of every thread = model trun / view')
     return finish_with_proofs(ctx, {'threaded_runs': len(lines), 'library_static_objects_seen': nstat})
+
+
+# ------------------------------------------------ C10: the RPC sender under writer faults -----
+def rpc_sender_faults(ctx):
+    """SimpleMethodSender::SendMethod over a writer that fails at its k-th call: Invoke returns exactly that error,
+    the writer sees no further call and the reply is never waited for"""
+    import rpcgen
+    pool = get_pool()
+    rng = ctx.rng
+    ifaces, sets = rpcgen.interfaces(pool.types)
+    gv = lambda t: std_map_order(nopgen.gen_value(pool.types[t], rng))
+    probes = []
+    for s, (k, pk, bs) in enumerate(sets):
+        if pk not in ('none', 'inst'):
+            continue
+        for m, kind, hats in bs:
+            nm, sel, rt, ats, alt = ifaces[k]['methods'][m]
+            for _ in range(2 if ctx.quick else 12):
+                probes.append((k, s, m, gv(rt), [gv(t) for t in hats]))
+    exe = os.path.join(pool.dir, 'rpc')
+    base = ['rpc %d %d -1 | I %d %s%s' % (k, s, m, ret, ''.join(' ' + a for a in args)) for k, s, m, ret, args in probes]
+    bo = run_parallel([exe], base, env=ASAN_ENV, what='rpc')
+    lines, meta = [], []
+    for (k, s, m, ret, args), o in zip(probes, bo):
+        if o.startswith(BADOUT):
+            continue
+        n = int(parse_actions(o)[0].get('wcalls', '0'))
+        for kk in range(n):
+            code = rng.choice([12, 13, 14, 15, 16, 17, 18])
+            lines.append('rpc %d %d -1 | X %d %d %d %s%s' % (k, s, kk, code, m, ret, ''.join(' ' + a for a in args)))
+            meta.append((kk, code, n))
+    ho = run_parallel([exe], lines, env=ASAN_ENV, what='rpc')
+    for line, (kk, code, n), o in zip(lines, meta, ho):
+        ctx.count('rpc-sender-fault', line)
+        if o.startswith(BADOUT):
+            ctx.violate('memory-error', 'RPC sender crashed under a writer fault: %s -> %s' % (line[:200], o[:300]), {'case': line, 'output': o})
+            continue
+        a = parse_actions(o)[0]
+        if a['inv'] != '%d:-' % code:
+            ctx.violate('rpc-sender', 'the writer failed with %d at call %d of %d but Invoke returned %s: %s' % (code, kk, n, a['inv'][:60], line[:240]), {'case': line, 'output': o})
+        elif int(a['wcalls']) != kk + 1:
+            ctx.violate('rpc-sender', 'the writer failed at call %d but saw %s calls in all: %s' % (kk, a['wcalls'], line[:240]), {'case': line, 'output': o})
+        elif a['waited'] != '0':
+            ctx.violate('rpc-sender', 'after a failed write the sender still waited for (read) a reply: %s' % line[:240], {'case': line, 'output': o})
+    return len(lines)
